@@ -1,7 +1,9 @@
 from vlib.core import Ob
 ID = "C04"
 LEVEL = "model_checking"
-FUNCTIONS = ["Array_New", "Array_Push", "Array_Pop", "Array_Push_At", "Array_Pop_At", "Array_Get", "Array_Set", "Array_Rem", "Array_Mem", "Array_Concat",
+FUNCTIONS = ["List_Push", "List_Pop", "List_Push_At", "List_Pop_At", "List_Get", "List_Set", "List_Rem", "List_Mem", "List_Concat", "List_Assign", "List_Resize", "List_Iter_Init", "List_Iter_Next", "List_Iter_Last", "List_Iter_Prev", "List_Mark", "List_Del", "List_At", "List_Link", "List_Unlink",
+             "Tuple_Push", "Tuple_Pop", "Tuple_Push_At", "Tuple_Pop_At", "Tuple_Get", "Tuple_Set", "Tuple_Rem", "Tuple_Mem", "Tuple_Concat", "Tuple_Resize", "Tuple_Sort_By", "Tuple_Iter_Init", "Tuple_Iter_Next", "Tuple_Iter_Last", "Tuple_Iter_Prev", "Tuple_Len",
+             "Array_New", "Array_Push", "Array_Pop", "Array_Push_At", "Array_Pop_At", "Array_Get", "Array_Set", "Array_Rem", "Array_Mem", "Array_Concat",
              "Array_Resize", "Array_Reserve_More", "Array_Reserve_Less", "Array_Sort_By", "Array_Sort_Part", "Array_Sort_Partition", "Array_Iter_Init", "Array_Iter_Next",
              "Array_Iter_Last", "Array_Iter_Prev", "Array_Assign", "Array_Clear", "Array_Del", "Array_Alloc", "Array_Item", "Array_Len"]
 ASSUMPTIONS = []
@@ -52,7 +54,48 @@ for n_, o_ in OPS:
         if n_ == "sort" and nlen == 3:
             o.tiers = ("thorough",); o.mem_gb = 20; o.timeout = 3600
         OBLIGATIONS.append(o)
-LEVEL_TEXT = ("Bounded model checking of the real Array.c: every operation as an inductive step from an arbitrary valid state (symbolic element values, duplicates, spare capacity) "
+def TU(name, op, nlen, idx=None, **kw):
+    lm = 8
+    us = ["Type_Scan.0:40", "Type_Scan.1:40", "strcmp.0:26", "Tuple_Len.0:%d" % (lm + 2), "obj_index.0:6", "vcw_new.0:40", "vcw_realloc.0:40", "vcw_check.0:40", "vcw_check.1:5", "vcw_find.0:5", "vcw_live.0:5",
+          "verif_memmove_w.0:%d" % (lm + 2), "verif_memmove_w.1:%d" % (lm + 2), "Tuple_Sort_Part:%d" % (nlen + 1), "Tuple_Sort_Partition.0:%d" % (nlen + 2)]
+    defs = ["OP=%s" % op, "NLEN=%d" % nlen, "VCW=24", "VCW_BLOCKS=3"] + (["IDXC=%d" % idx] if idx is not None else [])
+    return Ob("tuple.%s.n%d%s" % (name, nlen, "" if idx is None else ".i%d" % idx), "C04/tuple_step.c", defs=defs, replace=["Tuple.c"], srcs_extra=["env_vcapw.c"],
+              unwind=lm + 2, unwindset=us, checks=["bounds", "pointer"], tiers=("quick", "thorough"), timeout=900, **kw)
+TOPS = [("push", "OP_PUSH"), ("pop", "OP_POP"), ("push_at", "OP_PUSH_AT"), ("pop_at", "OP_POP_AT"), ("getset", "OP_GETSET"), ("rem", "OP_REM"), ("mem", "OP_MEM"), ("concat", "OP_CONCAT"),
+        ("resize", "OP_RESIZE"), ("sort", "OP_SORT"), ("iter", "OP_ITER"), ("bad_index", "OP_BAD_INDEX")]
+TUPLE = [TU("pop_empty", "OP_POP_EMPTY", 0)]
+for nm, op in TOPS:
+    for nlen in range(0, 4):
+        if nlen == 0 and nm in ("pop", "push_at", "pop_at", "getset", "rem"):
+            continue
+        if nm in ("push_at", "pop_at"):
+            for ix in range(-nlen, nlen):
+                TUPLE.append(TU(nm, op, nlen, ix))
+        else:
+            TUPLE.append(TU(nm, op, nlen))
+def LI(name, op, nlen, mlen=None, **kw):
+    us = ["Type_Scan.0:40", "Type_Scan.1:40", "strcmp.0:26", "node_index.0:10", "pool_calloc.0:10", "pool_live_count.0:10", "owns.0:26", "owns.1:12", "owns.2:12", "elem_live_count.0:26",
+          "agrees.0:10", "snapshot.0:10", "snapshot.1:10", "verif_on_throw.0:10", "verif_on_throw.1:10", "List_At.0:6", "List_At.1:6", "memcpy.0:8", "memcpy.1:40"]
+    defs = ["OP=%s" % op, "NLEN=%d" % nlen] + (["MLEN=%d" % mlen] if mlen is not None else [])
+    return Ob("list.%s.n%d%s" % (name, nlen, "" if mlen is None else ".m%d" % mlen), "C04/list_step.c", defs=defs, replace=["List.c"],
+              unwind=10, unwindset=us, checks=["bounds", "pointer"], tiers=("quick", "thorough"), timeout=900, **kw)
+LOPS = [("push", "OP_PUSH"), ("pop", "OP_POP"), ("push_at", "OP_PUSH_AT"), ("pop_at", "OP_POP_AT"), ("getset", "OP_GETSET"), ("rem", "OP_REM"), ("rem_absent", "OP_REM_ABSENT"), ("mem", "OP_MEM"),
+        ("concat", "OP_CONCAT"), ("assign", "OP_ASSIGN"), ("resize", "OP_RESIZE"), ("iter", "OP_ITER"), ("mark", "OP_MARK"), ("del", "OP_DEL"), ("bad_index", "OP_BAD_INDEX")]
+LIST = [LI("pop_empty", "OP_POP_EMPTY", 0)]
+for nm, op in LOPS:
+    for nlen in range(0, 4):
+        if nlen == 0 and nm in ("pop", "pop_at", "getset", "rem"):
+            continue
+        if nm in ("concat", "assign"):
+            for ml in range(0, 3):
+                LIST.append(LI(nm, op, nlen, ml))
+        else:
+            LIST.append(LI(nm, op, nlen))
+for o_ in TUPLE:
+    if o_.name == "tuple.sort.n3":
+        o_.tiers = ("thorough",); o_.mem_gb = 20; o_.timeout = 3600
+OBLIGATIONS += TUPLE + LIST
+LEVEL_TEXT = ("Bounded model checking of the real Array.c, List.c and Tuple.c: every operation as an inductive step from an arbitrary valid state (symbolic element values, duplicates, spare capacity) "
               "against a reference sequence, one obligation per pre-state length 0..3 (and per index for the element-shifting operations, per operand length for concat/assign).")
 LEVEL_NOTE = ("Trusted: cbmc; probe element callbacks (eq/cmp/assign/destruct/swap) with an ownership ledger; storage malloc/realloc/free replaced by the fixed-capacity model lib/env_vcapw.c. "
-              "List and Tuple are not yet covered by step harnesses (see DESIGN.md).")
+              "List nodes are separate cbmc objects from a pool (calloc/free of List.c); Tuple items are references to harness objects, Tuple cursors are the items themselves, so iteration obligations assume distinct references (known finding).")
